@@ -56,7 +56,9 @@ def _alarm(signum, frame):
 
 
 REJECTIONS = {
-    "request_workflow_status": (oexc.InvalidWorkflowStatusTransition,),
+    # InvalidEvent / InvalidStatus: a request for a status that is no workflow status at all
+    # (timeout, abandoned, pending, retrying, garbage) is refused with these, before any effect
+    "request_workflow_status": (oexc.InvalidWorkflowStatusTransition, oexc.InvalidEvent, oexc.InvalidStatus),
     "request_workflow_rerun": (oexc.WorkflowIsActiveAndNotRerunableError, oexc.InvalidTaskRerunRequest),
 }
 
@@ -115,6 +117,7 @@ class World(object):
         self.sched_sig = []
         self._orig_eval = None
         self.dispatch_seen = set()
+        self.delivered_events = {}
         self.resting_points = []
 
     # ------------------------------------------------------------------ reporting
@@ -124,7 +127,16 @@ class World(object):
     def report(self, prop, clause, msg, tags=(), kf=None):
         if kf is not None:
             self.kf_hits.append((kf, prop, clause))
-            raise KnownFindingStop(kf, prop, clause, msg, tags)
+            mine = self.is_enabled(prop, clause)
+            props_of_kf = (self.o.get("kf_props") or {}).get(kf)
+            # a control-flow finding derails the reference model for the rest of the run whatever
+            # property is being checked; a data-only finding concerns only the listed properties
+            related = mine or props_of_kf is None or "*" in props_of_kf or any(p in self.enabled for p in props_of_kf)
+            if mine or (related and not self.o.get("kf_through")):
+                # the run is tainted by a known finding that concerns the property under check
+                raise KnownFindingStop(kf, prop, clause, msg, tags)
+            self.foreign.append((prop, clause, "kf:" + kf))
+            return
         if self.is_enabled(prop, clause):
             raise Violation(prop, clause, msg, tags, kf, self.step)
         self.foreign.append((prop, clause, msg[:200]))
@@ -215,9 +227,6 @@ class World(object):
 
     def classify_escape(self, method, exc):
         """Recognise escapes that belong to a known finding (precise signatures only)."""
-        f = self.p.get("_features") or set()
-        if isinstance(exc, RecursionError) and self.cancel_req and "retry_when_completed" in f:
-            return "KF-cancel-retry-recursion", ["retry_when_completed", "cancel_action_reports_canceled"]
         return None, []
 
     def _twin_call(self, method, args, kw, ret, exc):
@@ -336,8 +345,12 @@ class World(object):
         order = [(t["id"], t["route"]) for t in tasks]
         if order != sorted(order):
             self.report("C19", "stable_order", "get_next_tasks() not ordered by (id, route): %r" % (order,))
-        if self.fault_fired and self.status == "failed" and tasks:
-            self.report("C11", "no_offer_after_error", "tasks offered after a rendering error failed the workflow")
+        if (self.fault_fired or self.o.get("data_fault")) and self.status == "failed" and self.ledger.runtime_errors:
+            ce = self.cleanup_entitled()
+            extra = [(t["id"], t["route"]) for t in tasks if (t["id"], t["route"]) not in ce]
+            if extra:
+                self.report("C11", "no_offer_after_error", "tasks %r offered after an expression error failed the "
+                            "workflow" % (extra,))
         n_started = 0
         for t in tasks:
             n_started += self.start_task(t, st_before)
@@ -396,6 +409,7 @@ class World(object):
             self.after_call("started")
             started = 1
         self.offers.append((self.step, tid, route))
+        self.rerun_offers_since += 1
         self.bump("offers")
         return started
 
@@ -450,12 +464,13 @@ class World(object):
             self.call("update_task_state", tid, route, events.ActionExecutionEvent("succeeded", result=[]))
             self.after_call("completed")
             rec = self.record(tid, route)
-            if rec is None or rec.get("status") != "succeeded":
+            if rec is None or rec.get("status") not in ("succeeded", "retrying"):
                 self.report("C12", "empty", "empty with-items task did not complete at once (status %r)"
                             % (rec or {}).get("status"))
             self.on_exec_terminal(x, rec, [], wfb)
             return 0
-        if it.get("stopped") or self.pause_req or self.cancel_req:
+        if it.get("stopped") or (self.pause_req and self.status in ("pausing", "paused")) or \
+                (self.cancel_req and self.status in ("canceling", "canceled")):
             if acts:
                 self.report("C12", "no_item_after_stop", "items %r of %s offered after pause/cancel/completion"
                             % ([a.get("item_id") for a in acts], tid))
@@ -546,7 +561,8 @@ class World(object):
             return True
         self.inflight.pop(aid, None)
         self.pending.pop(aid, None)
-        self.delivered_last = (aid, status)
+        self.delivered_events[aid] = (tid, route, a["item"], status, copy.deepcopy(result),
+                                      copy.deepcopy(x.items["results"]) if a["item"] is not None else None, x)
         self.call("update_task_state", tid, route, ev)
         self.after_call("completed")
         rec = self.record(tid, route)
@@ -563,11 +579,23 @@ class World(object):
         self.check_state("deliver")
         return True
 
-    def op_dup(self, task, route, item, status, result, acc):
+    def op_dup(self, aid):
         """At-least-once bus: re-deliver verbatim a terminal event that was already handled."""
-        if self.c is None:
+        d = self.delivered_events.get(aid)
+        if self.c is None or d is None:
+            self.bump("op_skipped")
             return False
-        before = self.snap
+        task, route, item, status, result, acc, x = d
+        # Admissible only while that execution is still the latest one of (task, route): the
+        # conductor identifies an action by (task, route) alone, so after a retry, a loop revisit
+        # or a rerun a stale duplicate is indistinguishable from the new execution's own report;
+        # telling them apart is the provider's job (it knows action execution ids).
+        L = self.ledger
+        latest = [e for e in L.execs if e.task == task and e.route == route]
+        if not latest or latest[-1] is not x or x.state != "done" or any(
+                c.task == task and c.route in (route, None) for c in L.open_credits(task)):
+            self.bump("dup_skipped_inadmissible")
+            return False
         if item is None:
             ev = events.ActionExecutionEvent(status, result=copy.deepcopy(result))
         else:
@@ -675,6 +703,7 @@ class World(object):
         wfb = self.status
         n_inflight = len(self.inflight)
         accepted = True
+        self.last_request = status
         try:
             self.call("request_workflow_status", status)
         except Rejected as r:
@@ -736,6 +765,8 @@ class World(object):
         if self.status != "resuming":
             self.report("C17", "resuming", "accepted rerun left the workflow %s" % self.status)
         self.accepted_rerun = True
+        self.ledger.reruns += 1
+        self.rerun_offers_since = 0
         self.terminal_seen = None
         self.rendered = False
         self.bump("fault_rerun")
@@ -782,7 +813,10 @@ class World(object):
             self.check_append_only(prev["state"], st, tag)
         # status finality
         if self.terminal_seen is not None and new_status != self.terminal_seen:
-            ok = (self.terminal_seen == "succeeded" and new_status == "failed" and tag == "render")
+            # succeeded -> failed is the one documented exception: the engine's own output-rendering
+            # failure and an explicit `failed` request are the same workflow event
+            ok = (self.terminal_seen == "succeeded" and new_status == "failed" and
+                  (tag == "render" or (tag == "request" and self.last_request == "failed")))
             if not ok and not (tag == "rerun"):
                 self.report("C04", "status_final", "status changed from %s to %s after %s"
                             % (self.terminal_seen, new_status, tag))
@@ -876,8 +910,6 @@ class World(object):
             ub = L.unsatisfied_barriers()
             if ub:
                 kf, tags = None, []
-                if self.ever_paused:
-                    kf, tags = "KF-pause-unreachable-join", ["pause_with_unreachable_join"]
                 msg = "workflow succeeded with a partially satisfied join that can no longer run: %r" % [
                     (b["join"], b["route"], b["srcs"]) for b in ub]
                 self.report("C07", "unreachable_fails", msg, tags=tags, kf=kf)
@@ -887,8 +919,6 @@ class World(object):
                             % [L.execs[i].key() for i in L.unhandled])
             if L.fail_cmd:
                 kf, tags = None, []
-                if self.ever_paused:
-                    kf, tags = "KF-pause-while-fail-command", ["pause_while_fail_command"]
                 self.report("C02", "succeeded_clean", "workflow succeeded although a fail command ran (after %r)"
                             % [L.execs[i].key() for i in L.fail_cmd], tags=tags, kf=kf)
             if L.runtime_errors:
@@ -915,6 +945,7 @@ class World(object):
             self.check_fault_effect()
 
     fault_checked = False
+    last_request = None
 
     def check_fault_effect(self):
         """C11 recorded / fails for an injected k-th evaluation fault."""
@@ -949,7 +980,13 @@ class World(object):
                 pass
 
     def classify_stuck(self):
+        if self.accepted_rerun and self.status == "resuming" and self.rerun_offers_since == 0 and not self.inflight:
+            # precise signature: a rerun request was accepted although there is no execution to
+            # re-run and nothing to continue; the workflow is left `resuming` with nothing to do
+            return "KF-rerun-accepted-nothing-to-do", ["rerun_default_no_candidate"]
         return None, []
+
+    rerun_offers_since = 0
 
     def check_final(self):
         """End of run (after settle)."""
@@ -957,8 +994,6 @@ class World(object):
         st = self.status
         if self.error_processed_while_not_canceling and st != "failed" and not (self.cancel_req and st in ("canceled", "canceling")):
             kf, tags = None, []
-            if self.ever_paused and (L.fail_cmd or L.unhandled):
-                kf, tags = "KF-pause-while-fail-command", ["pause_while_fail_command"]
             self.report("C02", "failure_ends_failed", "an unhandled failure / fail command / runtime error was processed "
                         "but the workflow ended %s" % st, tags=tags, kf=kf)
         if self.cancel_req and st in TERMINAL_WF:
@@ -966,8 +1001,6 @@ class World(object):
                 self.report("C10", "never_succeeded", "canceled workflow ended succeeded")
             if st == "failed" and not L.runtime_errors and not self.fault_fired and not self.failed_before_cancel:
                 kf, tags = None, []
-                if any("UnreachableJoinError" in (e.get("message") or "") for e in self.snap["errors"]):
-                    kf, tags = "KF-cancel-unreachable-join", ["cancel_unreachable_join"]
                 self.report("C10", "not_failed_by_cancel", "cancellation ended in failed: %r"
                             % [e.get("message") for e in self.snap["errors"]][:3], tags=tags, kf=kf)
         if st == "succeeded" and not L.runtime_errors:
